@@ -1,132 +1,51 @@
-(* Bytes, UTF-8 well-formedness and character boundaries (executable definitions only).
-
-   Bytes are [N] (values < 256 in every use; nothing depends on that bound).
-   [utf8_valid] follows the table of core::str::from_utf8 (Unicode 3.9 table 3-7: no overlong
-   forms, no surrogates, nothing above U+10FFFF).  [is_char_boundary] is str::is_char_boundary
-   (and parser/src/str_suffix.rs:57 which copies it). *)
-From Coq Require Import List NArith Bool Arith.
+(* UTF-8 over byte lists (bytes are Z in 0..255).  Definitions only.
+   `is_char_boundary` is core::str::is_char_boundary; `utf8_valid` is the validation table of
+   core::str::from_utf8 (Unicode Table 3-7: no overlong forms, no surrogates, <= U+10FFFF). *)
+From Coq Require Import List ZArith Bool.
 Import ListNotations.
-Local Open Scope N_scope.
+Open Scope Z_scope.
 
-Definition byte := N.
+Definition bytes := list Z.
 
-(* parser/src/str_suffix.rs:52  `(b as i8) >= -0x40`, i.e. b < 128 || b >= 192 *)
-Definition is_boundary_byte (b : byte) : bool := (b <? 128) || (192 <=? b).
+Definition zlen {A} (l : list A) : Z := Z.of_nat (length l).
 
-Definition is_cont (b : byte) : bool := (128 <=? b) && (b <=? 191).
+(* 0b10xxxxxx *)
+Definition is_cont (b : Z) : bool := (128 <=? b) && (b <? 192).
 
-Definition in_range (lo hi b : byte) : bool := (lo <=? b) && (b <=? hi).
-
-(* str::is_char_boundary: index 0 and len are boundaries, an index past the end is not. *)
-Definition is_char_boundary (l : list byte) (i : nat) : bool :=
-  if Nat.eqb i 0 then true
-  else match nth_error l i with
-       | Some b => is_boundary_byte b
-       | None => Nat.eqb i (length l)
+(* str::is_char_boundary(index): 0 and len are boundaries, an index past the end is not, otherwise
+   the byte at index must not be a continuation byte. *)
+Definition is_char_boundary (s : bytes) (i : Z) : bool :=
+  if i =? 0 then true
+  else if i <? 0 then false
+  else match nth_error s (Z.to_nat i) with
+       | Some b => negb (is_cont b)
+       | None => i =? zlen s
        end.
 
-Fixpoint utf8_valid (l : list byte) : bool :=
-  match l with
-  | [] => true
-  | b0 :: t =>
-    if b0 <? 128 then utf8_valid t
-    else if in_range 194 223 b0 then
-      match t with
-      | b1 :: t1 => is_cont b1 && utf8_valid t1
-      | _ => false
-      end
-    else if in_range 224 239 b0 then
-      match t with
-      | b1 :: b2 :: t2 =>
-        (if b0 =? 224 then in_range 160 191 b1
-         else if b0 =? 237 then in_range 128 159 b1
-         else is_cont b1) && is_cont b2 && utf8_valid t2
-      | _ => false
-      end
-    else if in_range 240 244 b0 then
-      match t with
-      | b1 :: b2 :: b3 :: t3 =>
-        (if b0 =? 240 then in_range 144 191 b1
-         else if b0 =? 244 then in_range 128 143 b1
-         else is_cont b1) && is_cont b2 && is_cont b3 && utf8_valid t3
-      | _ => false
-      end
-    else false
-  end.
+Definition in_range (lo hi b : Z) : bool := (lo <=? b) && (b <=? hi).
 
-(* Code point of the first character of a (valid) UTF-8 sequence. *)
-Definition decode_first (l : list byte) : N :=
-  match l with
-  | [] => 0
-  | b0 :: t =>
-    if b0 <? 128 then b0
-    else if b0 <? 224 then
-      match t with b1 :: _ => (b0 - 192) * 64 + (b1 - 128) | _ => 0 end
-    else if b0 <? 240 then
-      match t with b1 :: b2 :: _ => (b0 - 224) * 4096 + (b1 - 128) * 64 + (b2 - 128) | _ => 0 end
-    else
-      match t with
-      | b1 :: b2 :: b3 :: _ => (b0 - 240) * 262144 + (b1 - 128) * 4096 + (b2 - 128) * 64 + (b3 - 128)
-      | _ => 0
-      end
-  end.
-
-(* char::len_utf8 *)
-Definition len_utf8 (c : N) : nat :=
-  if c <? 128 then 1%nat else if c <? 2048 then 2%nat else if c <? 65536 then 3%nat else 4%nat.
-
-Definition all_ascii (l : list byte) : bool := forallb (fun b => b <? 128) l.
-
-Fixpoint list_eqb (a b : list byte) : bool :=
-  match a, b with
-  | [], [] => true
-  | x :: a', y :: b' => (x =? y) && list_eqb a' b'
-  | _, _ => false
-  end.
-
-Fixpoint starts_with (p l : list byte) : bool :=
-  match p, l with
-  | [], _ => true
-  | x :: p', y :: l' => (x =? y) && starts_with p' l'
-  | _ :: _, [] => false
-  end.
-
-(* Unicode White_Space (char::is_whitespace), as UTF-8 byte sequences.  [ws_len l] is the byte
-   length of the white-space character at the front of [l], 0 if there is none. *)
-Definition ws_len (l : list byte) : nat :=
-  match l with
-  | b0 :: t =>
-    if in_range 9 13 b0 || (b0 =? 32) then 1%nat
-    else if b0 =? 194 then
-      match t with b1 :: _ => if (b1 =? 133) || (b1 =? 160) then 2%nat else 0%nat | _ => 0%nat end
-    else if b0 =? 225 then
-      match t with b1 :: b2 :: _ => if (b1 =? 154) && (b2 =? 128) then 3%nat else 0%nat | _ => 0%nat end
-    else if b0 =? 226 then
-      match t with
-      | b1 :: b2 :: _ =>
-        if (b1 =? 128) && (in_range 128 138 b2 || (b2 =? 168) || (b2 =? 169) || (b2 =? 175)) then 3%nat
-        else if (b1 =? 129) && (b2 =? 159) then 3%nat else 0%nat
-      | _ => 0%nat
-      end
-    else if b0 =? 227 then
-      match t with b1 :: b2 :: _ => if (b1 =? 128) && (b2 =? 128) then 3%nat else 0%nat | _ => 0%nat end
-    else 0%nat
-  | [] => 0%nat
-  end.
-
-(* The same test on the reversed text (last byte first); sound for valid UTF-8 because the lead
-   bytes 194, 225, 226, 227 always start a character. *)
-Definition ws_len_rev (l : list byte) : nat :=
-  match l with
-  | b0 :: t =>
-    if in_range 9 13 b0 || (b0 =? 32) then 1%nat
-    else
-      match t with
-      | b1 :: t1 =>
-        if (b1 =? 194) && ((b0 =? 133) || (b0 =? 160)) then 2%nat
-        else
-          match t1 with
-          | b2 :: _ => match ws_len [b2; b1; b0] with 3%nat => 3%nat | _ => 0%nat end
+(* width of the well-formed sequence starting the list, 0 if none *)
+Definition seq_width (s : bytes) : nat :=
+  match s with
+  | b0 :: r =>
+      if b0 <? 128 then 1%nat
+      else match r with
+      | b1 :: r1 =>
+          if in_range 194 223 b0 && is_cont b1 then 2%nat
+          else match r1 with
+          | b2 :: r2 =>
+              if ((b0 =? 224) && in_range 160 191 b1 && is_cont b2)
+                 || (in_range 225 236 b0 && is_cont b1 && is_cont b2)
+                 || ((b0 =? 237) && in_range 128 159 b1 && is_cont b2)
+                 || (in_range 238 239 b0 && is_cont b1 && is_cont b2) then 3%nat
+              else match r2 with
+              | b3 :: _ =>
+                  if ((b0 =? 240) && in_range 144 191 b1 && is_cont b2 && is_cont b3)
+                     || (in_range 241 243 b0 && is_cont b1 && is_cont b2 && is_cont b3)
+                     || ((b0 =? 244) && in_range 128 143 b1 && is_cont b2 && is_cont b3) then 4%nat
+                  else 0%nat
+              | [] => 0%nat
+              end
           | [] => 0%nat
           end
       | [] => 0%nat
@@ -134,12 +53,54 @@ Definition ws_len_rev (l : list byte) : nat :=
   | [] => 0%nat
   end.
 
-Fixpoint trim_with (f : list byte -> nat) (fuel : nat) (l : list byte) : list byte :=
-  match fuel with
-  | O => l
-  | S fuel' => match f l with O => l | k => trim_with f fuel' (skipn k l) end
+Fixpoint utf8_valid_fuel (fuel : nat) (s : bytes) : bool :=
+  match s with
+  | [] => true
+  | _ =>
+      match fuel with
+      | O => false
+      | S f =>
+          match seq_width s with
+          | O => false
+          | w => utf8_valid_fuel f (skipn w s)
+          end
+      end
   end.
 
-Definition trim_start (l : list byte) : list byte := trim_with ws_len (length l) l.
-Definition trim_end (l : list byte) : list byte := rev (trim_with ws_len_rev (length l) (rev l)).
-Definition trim (l : list byte) : list byte := trim_end (trim_start l).
+Definition utf8_valid (s : bytes) : bool := utf8_valid_fuel (length s) s.
+
+(* code point of the sequence starting the list (meaningful when seq_width > 0) *)
+Definition decode_first (s : bytes) : Z :=
+  match seq_width s, s with
+  | 1%nat, b0 :: _ => b0
+  | 2%nat, b0 :: b1 :: _ => (b0 - 192) * 64 + (b1 - 128)
+  | 3%nat, b0 :: b1 :: b2 :: _ => (b0 - 224) * 4096 + (b1 - 128) * 64 + (b2 - 128)
+  | 4%nat, b0 :: b1 :: b2 :: b3 :: _ => (b0 - 240) * 262144 + (b1 - 128) * 4096 + (b2 - 128) * 64 + (b3 - 128)
+  | _, _ => 0
+  end.
+
+(* all code points of a valid string *)
+Fixpoint decode_all_fuel (fuel : nat) (s : bytes) : list Z :=
+  match s with
+  | [] => []
+  | _ =>
+      match fuel with
+      | O => []
+      | S f =>
+          match seq_width s with
+          | O => []
+          | w => decode_first s :: decode_all_fuel f (skipn w s)
+          end
+      end
+  end.
+Definition decode_all (s : bytes) : list Z := decode_all_fuel (length s) s.
+
+Definition is_scalar (c : Z) : bool := ((0 <=? c) && (c <? 55296)) || ((57344 <=? c) && (c <=? 1114111)).
+
+Definition encode_char (c : Z) : bytes :=
+  if c <? 128 then [c]
+  else if c <? 2048 then [192 + c / 64; 128 + c mod 64]
+  else if c <? 65536 then [224 + c / 4096; 128 + (c / 64) mod 64; 128 + c mod 64]
+  else [240 + c / 262144; 128 + (c / 4096) mod 64; 128 + (c / 64) mod 64; 128 + c mod 64].
+
+Definition len_utf8 (c : Z) : Z := zlen (encode_char c).
